@@ -90,6 +90,14 @@ class C01(Check):
         if r2.status != 0 or codes2:
             c2 = sorted(set(codes2))
             key = "%s|fn:%s" % (sig, ",".join("%x" % c for c in c2[:6]))
+            # recurrence: the very problem (same code on the same object) that the first run answered "yes" to is
+            # reported again -- the repair was not made, or was undone, as opposed to a repair that uncovers or
+            # causes a different problem.  Keyed apart so that a listed family of the second kind cannot absorb it.
+            fixed1 = set((c, obj) for c, yes, obj in r1.problem_records if yes and any(obj))
+            recur = sorted(set(c for c, _yes, obj in r2.problem_records if (c, obj) in fixed1))
+            if recur:
+                key = "%s|recur:%s" % (sig, ",".join("%x" % c for c in recur[:6]))
+                o.stats["probe.recurrence"] += 1
             tail = r2.out.decode("latin1", "replace")
             tail = "\n".join(l for l in tail.splitlines() if l.strip())[-900:]
             o.violate(key, "after `e2fsck -fy` exited %d (fixed codes %s) on a %s image [%s], `e2fsck -fn` exited %s with problems %s; "
@@ -97,7 +105,7 @@ class C01(Check):
                       (r1.status, ["%#x" % c for c in sorted(set(codes1))[:10]], spec["state"],
                        "; ".join(f["what"] for f in st["faults"]) or str(st["details"])[:200], r2.status,
                        ["%#x" % c for c in c2[:10]], feats, st["cfg"]["bs"], tail),
-                      faults=st["faults"], skey="fn:" + ",".join("%x" % c for c in c2[:6]))
+                      faults=st["faults"], skey=key.split("|", 1)[1])
         return o
 
     def shrink(self, spec, v):
